@@ -21,7 +21,7 @@ pub fn gen(a: &Args) -> i32 {
         let levels = r.range(1, 3);
         let l0max = r.range(1, 3);
         let memkb = *r.pick(&[16u64, 64, 1024]); // tiny memtables force rotation inside a commit
-        let vlog = r.chance(1, 4) as u8;
+        let vlog = if a.extra.get("vlog").map(|v| v == "1").unwrap_or(false) { 1 } else { r.chance(1, 4) as u8 };
         writeln!(out, "case {case} {levels} {l0max} {memkb} {vlog}").unwrap();
         let nk = r.range(2, KEYS.len() as u64) as usize;
         let nops = r.range(6, if a.thorough { 50 } else { 25 });
